@@ -53,6 +53,8 @@ FillTarget(c) == CASE c = "f399" -> 399 [] c = "f400" -> 400 [] c = "f401" -> 40
 \* sp3 / sp4: two fixed texts that differ only in a run of blanks inside them ("a b", "a  b")
 StrVal(c) == CASE c = "l0" -> SV(c, 0) [] c = "l1" -> SV(c, 1) [] c = "l150" -> SV(c, 150) [] c = "l300" -> SV(c, 300)
                [] c = "sp3" -> SV(c, 3) [] c = "sp4" -> SV(c, 4)
+               \* texts that spell a boolean literal, a reserved word, a punctuation mark ("true", "FALSE", "left", ","): text all the same
+               [] c = "kwt" -> SV(c, 4) [] c = "kwf" -> SV(c, 5) [] c = "kwl" -> SV(c, 4) [] c = "kwc" -> SV(c, 1)
                [] OTHER -> SV(c, 0 - 1)
 IsFill(v) == v.t = "s" /\ v.len < 0
 
@@ -62,6 +64,8 @@ Cands(type) ==
   CASE type = "INT" -> {IV(c) : c \in IntCls} \cup (IF WithWrong THEN {SV("l1", 1), BV("true")} ELSE {})
     [] type = "BIGINT" -> {IV(c) : c \in BigCls} \cup (IF WithWrong THEN {SV("l1", 1), BV("false")} ELSE {})
     [] type = "BOOLEAN" -> {BV("true"), BV("false")} \cup (IF WithWrong THEN {IV("1"), IV("0"), SV("l1", 1)} ELSE {})
+                           \* a text that spells TRUE is a text: the wrong type for this column
+                           \cup (IF WithWrong THEN {StrVal(c) : c \in StrCls \cap {"kwt", "kwf"}} ELSE {})
     [] type = "VARCHAR" -> {StrVal(c) : c \in StrCls} \cup (IF WithWrong THEN {IV("0"), BV("true")} ELSE {})
 
 RECURSIVE Prod(_, _, _)
